@@ -12,12 +12,12 @@ import (
 
 // Event is one line of a worker's event log.
 type Event struct {
-	Ev      string           `json:"ev"` // viol | sample | summary | inconclusive
-	I       int              `json:"i"`
-	Viol    *Violation       `json:"viol,omitempty"`
-	Sample  any              `json:"sample,omitempty"`
-	Why     string           `json:"why,omitempty"`
-	Summary *WorkerSummary   `json:"summary,omitempty"`
+	Ev      string         `json:"ev"` // viol | sample | summary | inconclusive
+	I       int            `json:"i"`
+	Viol    *Violation     `json:"viol,omitempty"`
+	Sample  any            `json:"sample,omitempty"`
+	Why     string         `json:"why,omitempty"`
+	Summary *WorkerSummary `json:"summary,omitempty"`
 }
 
 type WorkerSummary struct {
@@ -32,12 +32,12 @@ type WorkerSummary struct {
 
 // WorkerArgs selects what a worker executes.
 type WorkerArgs struct {
-	ID        string
-	Ctx       Ctx
-	Shard, Of int
-	From      int    // skip case indices below From
-	Out       string // event log path; Out+".hashes" and Out+".marker" are written next to it
-	CasesFile string // execute these stored cases instead of the generated shard
+	ID         string
+	Ctx        Ctx
+	Shard, Of  int
+	From       int    // skip case indices below From
+	Out        string // event log path; Out+".hashes" and Out+".marker" are written next to it
+	CasesFile  string // execute these stored cases instead of the generated shard
 	MaxSamples int
 }
 
